@@ -105,7 +105,7 @@ func init() {
 						if cc.IsInvoke() {
 							name = cc.Method.Name()
 							recv = cc.Value
-							if ts := cc.Value.Type().String(); !strings.HasSuffix(ts, "lisp.Map") && !strings.HasSuffix(ts, "lisp.mapBacking") {
+							if ts := types.Unalias(cc.Value.Type()).String(); !strings.HasSuffix(ts, "lisp.Map") {
 								continue
 							}
 						} else if callee := cc.StaticCallee(); callee != nil && len(cc.Args) > 0 {
@@ -786,7 +786,7 @@ func init() {
 			}
 			var ref *impl
 			for tn, im := range impls {
-				if strings.HasSuffix(tn, "lisp.sortedmap") {
+				if strings.HasSuffix(canonTypes(tn), "lisp.sortedmap") {
 					ref = im
 				}
 			}
